@@ -35,6 +35,12 @@ impl SessionHandle {
     pub(crate) async fn events_snapshot(&self) -> Vec<Event> {
         self.events.lock().await.clone()
     }
+
+    /// The history as it is right now, or `None` while a frame is being recorded. Never waits.
+    pub(crate) fn try_events_snapshot(&self) -> Option<Vec<Event>> {
+        let events = self.events.try_lock().ok()?;
+        Some(events.clone())
+    }
 }
 
 pub struct SessionEngine {
